@@ -65,6 +65,12 @@ namespace xv
     XV_REF(ref_avg, wide s = (wide)x.a + (wide)x.b; r.v = (T)(std::is_signed<T>::value ? s / 2 : floordiv2(s));)
     // ceil((a+b)/2) whenever a+b >= 0; unconstrained otherwise
     XV_REF(ref_avgr, wide s = (wide)x.a + (wide)x.b; if (s < 0) { r.skip = true; return; } r.v = (T)ceildiv2(s);)
+    // self-aliased spellings (the same object on both sides: a OP= a, fma(a, a, a))
+    XV_REF(ref_selfadd, r.v = wrap<T>((wide)x.a + (wide)x.a);)
+    XV_REF(ref_selfsub, r.v = (T)0;)
+    XV_REF(ref_selfmul, r.v = wrap<T>((wide)x.a * (wide)x.a);)
+    XV_REF(ref_selfid, r.v = x.a;)
+    XV_REF(ref_selffma, r.v = wrap<T>((wide)x.a * (wide)x.a + (wide)x.a);)
     XV_REF(ref_add_scalar, r.v = wrap<T>((wide)x.a + (wide)(T)x.p);)
     XV_REF(ref_mul_scalar, r.v = wrap<T>((wide)x.a * (wide)(T)x.p);)
 
@@ -169,6 +175,11 @@ namespace xv
         def_int<ref_ssub>("ssub", "bin");
         def_int<ref_avg>("avg", "bin");
         def_int<ref_avgr>("avgr", "bin");
+        def_int<ref_selfadd>("selfadd", "un");
+        def_int<ref_selfsub>("selfsub", "un");
+        def_int<ref_selfmul>("selfmul", "un");
+        def_int<ref_selfid>("selfid", "un");
+        def_int<ref_selffma>("selffma", "un");
         def_int<ref_add_scalar>("add.scalar", "un", 2);
         def_int<ref_mul_scalar>("mul.scalar", "un", 2);
 
